@@ -95,6 +95,8 @@ func (s *vfC10Stub) ServeDNS(ctx context.Context, ch *middleware.Chain) {
 		panic("vfC10: handler panic for " + lower)
 	case strings.HasPrefix(lower, "slow"):
 		time.Sleep(2 * time.Millisecond)
+	case strings.HasPrefix(lower, "hold"):
+		time.Sleep(2 * time.Second) // well inside one query's budget (5 s), a large part of it
 	}
 	m := new(dns.Msg)
 	m.SetReply(req)
